@@ -68,8 +68,8 @@ func traverse(context Context, matchingNode *CandidateNode, operation *Operation
 			return list.New(), nil
 		}
 		if matchingNode.Alias == nil {
-			// set with `alias = "name"` in this expression: which node it stands for is only known once the document is read again
-			return nil, fmt.Errorf("cannot look inside alias *%v: it does not point at an anchored node yet", matchingNode.Value)
+			// set with `alias = "name"` to a name no node of the document is anchored with
+			return nil, fmt.Errorf("cannot look inside alias *%v: it does not point at an anchored node", matchingNode.Value)
 		}
 		matchingNode = matchingNode.Alias
 		return traverse(context, matchingNode, operation)
@@ -154,6 +154,9 @@ func traverseArrayIndices(context Context, matchingNode *CandidateNode, indicesT
 	}
 
 	if matchingNode.Kind == AliasNode {
+		if matchingNode.Alias == nil {
+			return nil, fmt.Errorf("cannot look inside alias *%v: it does not point at an anchored node", matchingNode.Value)
+		}
 		matchingNode = matchingNode.Alias
 		return traverseArrayIndices(context, matchingNode, indicesToTraverse, prefs)
 	} else if matchingNode.Kind == SequenceNode {
